@@ -92,6 +92,34 @@ mod verif_kani_qdldl {
         assert!(count == 0);
     }
 
+    // C12 "non-square, non-upper-triangular or empty-column inputs are reported as errors": check_structure accepts a matrix
+    // iff it is square, stores nothing below the diagonal and has no empty column.  Bounded: n = 3 columns, 4 stored
+    // entries, symbolic m in {2, 3}, symbolic column pointers and row indices.  (Stand-in that does not depend on the loop
+    // form: the unbounded Verus contract of check_structure is anchored to the loops of the current source.)
+    #[kani::proof]
+    #[kani::unwind(6)]
+    fn check_structure_iff_3col_nnz4() {
+        let m: usize = kani::any();
+        kani::assume(m == 2 || m == 3);
+        let cp: [usize; 4] = kani::any();
+        kani::assume(cp[0] == 0 && cp[0] <= cp[1] && cp[1] <= cp[2] && cp[2] <= cp[3] && cp[3] == 4);
+        let rv: [usize; 4] = kani::any();
+        let mut k = 0;
+        while k < 4 { kani::assume(rv[k] < m); k += 1; }
+        let A = CscMatrix::<f64> { m, n: 3, colptr: cp.to_vec(), rowval: rv.to_vec(), nzval: vec![1.0; 4] };
+        let mut triu = true;
+        let mut nonempty = true;
+        let mut c = 0;
+        while c < 3 {
+            if cp[c] == cp[c + 1] { nonempty = false; }
+            let mut k = 0;
+            while k < 4 { if cp[c] <= k && k < cp[c + 1] && rv[k] > c { triu = false; } k += 1; }
+            c += 1;
+        }
+        let r = check_structure(&A);
+        assert!(r.is_ok() == (m == 3 && triu && nonempty));
+    }
+
     // C12 / C08: symmetric permutation of an upper-triangular matrix and its entry map (bounded: n = 3, all 8 off-diagonal
     // patterns with full diagonal x all 6 permutations, enumerated concretely; symbolic non-NaN values)
     fn perm3(k: usize) -> [usize; 3] {
